@@ -621,3 +621,7 @@ SUBCHECKS = [
     Sub('C20.print', run, strategy=case_st(['pp'], 6), examples={'quick': 6000, 'thorough': 80000}),
     Sub('C20.history', run, strategy=case_st(['bits', 'mut', 'stream', 'array', 'global'], 25), examples={'quick': 5000, 'thorough': 80000}),
 ]
+
+for _s in SUBCHECKS:
+    if _s.name in ['C20.history', 'C20.construct_dtype_pack']:
+        _s.fuzz = True
